@@ -17,18 +17,18 @@ theorem applyAfter_acct (w : World) (op : Nat) (a : After) (rest : List K)
     exact acct_finish hI (Bal.refl _ hn) 0 rfl (by simp [applyAfter]) (by simp [applyAfter, postFrames])
   | postDone =>
     exact acct_finish hI (Bal.refl _ hn) (-1) rfl (by simp [applyAfter]; omega) (by simp [applyAfter, postFrames]; omega)
-  | timerDone k rep =>
+  | timerDone k rep cb =>
     simp only [applyAfter]
     cases hg : getObj { w with stack := rest } k with
     | none => exact acct_finish hI (Bal.refl _ hn) 0 rfl (by simp) (by simp [postFrames])
     | some o =>
       simp only
       have hid := getObj_id hg
-      have hg' : getObj { w with stack := .user op (.timerDone k rep) :: rest } o.id = some o := by rw [hid]; exact hg
+      have hg' : getObj { w with stack := .user op (.timerDone k rep cb) :: rest } o.id = some o := by rw [hid]; exact hg
       repeat' split
       all_goals first
         | exact acct_finish hI (Bal.refl _ hn) 0 rfl (by simp) (by simp [postFrames])
-        | exact acct_finish hI (setObj_same_bits _ o { o with cancelled := false, cancelledRep := false } hn hg' rfl (by simp [bitsOf])) 0 rfl
+        | exact acct_finish hI (setObj_same_bits _ o { o with cancelled := false } hn hg' rfl (by simp [bitsOf])) 0 rfl
             (by simp [setObj]) (by simp [setObj, postFrames])
         | exact acct_finish hI (armTimer_bal _ o op true hn hg') 0 (by simp [armTimer, setObj]; split <;> rfl)
             (by simp [armTimer, setObj]; split <;> rfl) (by simp [postFrames])
@@ -94,7 +94,7 @@ theorem pollDispatch_acct (w w' : World) (op : Nat) (any : Bool) (rest : List K)
              rename_i hcond
              have hev : o.evR = true := by
                simp only [Bool.and_eq_true] at hcond; exact hcond.1.2
-             have b := setObj_bal w o { o with evR := false, tstate := .ready, cancelledRep := (o.cancelledRep && info.kind != OpKind.timerRep) } hn hg' rfl (-1) (by simp [bitsOf, hev] <;> omega)
+             have b := setObj_bal w o { o with evR := false, tstate := .ready } hn hg' rfl (-1) (by simp [bitsOf, hev] <;> omega)
              exact acct_finish hI b 0 rfl (by simp [setObj]; omega) (by simp [hst, postFrames]))
           | (cases h; exact acct_finish hI (delRead_bal w o hn hg') 0 rfl (by simp) (by simp [hst, postFrames]))
           | (cases h; exact acct_finish hI (delWrite_bal w o hn hg') 0 rfl (by simp) (by simp [hst, postFrames]))
@@ -206,7 +206,7 @@ theorem step_acct (w w' : World) (e : Ev) (hI : AcctInv w) (h : step w e = some 
       all_goals first
         | acct_branch hst
         | (cases h
-           have b := setObj_bal w o { o with evR := false, cancelled := true, cancelledRep := true, tstate := .ready } hn hg' rfl
+           have b := setObj_bal w o { o with evR := false, cancelled := true, cancels := o.cancels + 1, tstate := .ready } hn hg' rfl
              (-(if o.evR then 1 else 0)) (by simp [bitsOf]; split <;> omega)
            exact acct_finish hI b 0 rfl (by simp [unsetPending]; omega) (by simp [hst, postFrames, unsetPending]))
   · -- Scheduled()
